@@ -19,6 +19,7 @@ ThoroughStatuses == QuickStatuses \cup {401, 403, 418, 429, 502, 599}
 
 GenMessages == {"text", "quotes", "empty", "jsonarr", "jsonobj-nocode", "jsonobj-strcode"}
 GenServers  == {"Oryx", "VerifSrv/1.0 (x)"}
+GenForms    == {"handler", "write"}
 
 V(n, t)  == [name |-> n, k |-> 0, marshalable |-> TRUE, jtype |-> t]
 U(n)     == [name |-> n, k |-> 0, marshalable |-> FALSE, jtype |-> "-"]
@@ -48,9 +49,12 @@ RandBad(n) == {[name |-> "randbad", k |-> i, marshalable |-> FALSE, jtype |-> "-
 QuickValues    == FixedValues \cup Rand(6) \cup RandBad(4)
 ThoroughValues == FixedValues \cup Rand(1000) \cup RandBad(300)
 
-GenInit == /\ pc = "read" /\ srv \in Servers /\ req \in Callbacks /\ app \in AppResponses
+\* a handler object at the end of the first request it serves
+GenInit == /\ pc = "done" /\ srv \in Servers /\ req \in Callbacks /\ app \in AppResponses
+           /\ obj = [made |-> app, form |-> "handler"] /\ cell = app.val /\ ver = 0
            /\ resp = Handle(srv, req, app)
            /\ verdict = ApiVerdict(resp)
+           /\ hist = <<[cb |-> req, val |-> cell, ver |-> 0, resp |-> resp, verdict |-> verdict]>>
 GenNext == UNCHANGED vars
 
 \* what the property lets the replayer hold the library to, per kind
